@@ -57,6 +57,11 @@ Proof.
   - unfold add_computed_value, bind in H. inv_guard H. injection H as <-. exact W.
   - unfold finalize, bind in H. inv_guard H. injection H as <-. exact W.
   - injection H as <-. exact W.
+  - unfold add_flow_dyn, bind in H.
+    assert (exists fs', add_flow m fs' = Ok m') as [fs' H'].
+    { destruct (fs_kind fs); try (destruct (validate_flowparam v); [|discriminate]); eexists; exact H. }
+    clear H. rename H' into H. destruct (add_flow_frame _ _ _ H) as [fl ->]. exact W.
+  - unfold add_universal_death_dyn, bind in H. destruct (validate_flowparam v) as [param|]; [|discriminate]. destruct (add_universal_death_new _ _ _ _ H) as [new [-> _]]. exact W.
 Qed.
 
 Theorem actions_ok_build t0 t1 h comps inf ops m : build_ok t0 t1 h comps inf ops = Some m -> actions_ok m.
